@@ -11,7 +11,8 @@ LEVEL = 'model_checking'
 CAP = 2000000000   # TLC integers are 32 bit; larger protocol ceilings are never approached by the driver
 
 OPS = ['insert', 'append', 'extend', 'iadd', 'pop', 'delitem', 'setitem', 'remove', 'delslice', 'setslice',
-       'reverse', 'clear']
+       'delxslice', 'setxslice', 'reverse', 'clear']
+OPEN = 99          # PySeq!Open: an omitted slice bound
 
 
 # ------------------------------------------------------------------ harness-side tiny vectors (for replay)
@@ -131,6 +132,10 @@ class Subject(object):
                 del vec[i:j]
             elif name == 'setslice':
                 vec[i:j] = [self.item(p) for p in xs]
+            elif name == 'delxslice':
+                del vec[slice(None if i == OPEN else i, None if j == OPEN else j, x[0])]
+            elif name == 'setxslice':
+                vec[slice(None if i == OPEN else i, None if j == OPEN else j, x[0])] = [self.item(p) for p in xs]
             elif name == 'reverse':
                 vec.reverse()
             elif name == 'clear':
@@ -324,6 +329,17 @@ def random_op(subj, vec, rng):
         return [name, i, j, [0, 0], []]
     if name == 'setslice':
         return [name, i, j, [0, 0], xs]
+    if name in ('delxslice', 'setxslice'):
+        step = rng.choice([-1, -1, -2, 2, 3, -3])
+        i = rng.choice([OPEN, OPEN, i])
+        j = rng.choice([OPEN, OPEN, j])
+        if name == 'delxslice':
+            return [name, i, j, [step, 0], []]
+        # mostly the right number of values (anything else is a ValueError before any change)
+        cnt = len(range(*slice(None if i == OPEN else i, None if j == OPEN else j, step).indices(n)))
+        if rng.random() < 0.8:
+            xs = [pair() for _ in range(cnt)]
+        return [name, i, j, [step, 0], xs]
     return [name, 0, 0, [0, 0], []]
 
 
@@ -425,7 +441,7 @@ def run_replay(rep, thorough):
         pool_ids = sorted(idmap)
         subj = Subject(cls, [idmap[k] for k in pool_ids], [1 if k < 3 else 2 for k in pool_ids], name='harness.' + name)
         usable = lambda c: all(p[0] in idmap for p in c['s'] + c['post'] + c['op'][4]) and \
-            (c['op'][3][0] in idmap or c['op'][3][0] == 0)   # noqa: E731
+            (c['op'][0] in ('delxslice', 'setxslice') or c['op'][3][0] in idmap or c['op'][3][0] == 0)   # noqa: E731
         todo = {}
         for key, lst in by_state.items():
             ok = [c for c in lst if usable(c)]
